@@ -342,6 +342,7 @@ def _case(op, family, desc, ins, outs, kwargs, opts=None, kinds=None, tags=()):
     }
 
 
+UINT8_UPDATES = False  # opt-in (C14): update tensors of dtype uint8 (8-bit bit-vector elements)
 SAME_NAME_BRACKETS = False  # opt-in per check (checks that re-render descriptions from the structure keep it off)
 
 
@@ -988,7 +989,9 @@ def gen_update(g, op=None):
     uv = [v for v in vec if rng.random() < 0.6] + [x for x in extra if rng.random() < 0.7]
     rng.shuffle(uv)
     e_u = tuple(uv)
-    kinds.append("int")
+    # updates of an unsigned 8-bit dtype next to an integer target: numpy promotes their VALUE, so the meaning is
+    # the same as for integers - unless the lowering does arithmetic on the updates in their own dtype
+    kinds.append("uint8" if UINT8_UPDATES and rng.random() < 0.3 else "int")
     ins = [e_t] + coords + [e_u]
     tags = set()
     if rng.random() < 0.5:
